@@ -81,6 +81,15 @@ def version_case(draw):
     c["recreate"] = draw(st.booleans())
     c["garbage"] = draw(st.binary(min_size=0, max_size=64)).hex()
     c["top"] = top
+    # a third of the 'info' cases: the file is replaced by one of another version WHILE the engine that wrote it
+    # lives on (another client recreated it between two builds of a long-lived engine); the engine keeps
+    # building, then a new process continues
+    c["same_engine"] = tam == "info" and draw(st.integers(0, 2)) == 0
+    if c["same_engine"]:
+        leaves = [r["key"] for r in c["rules"] if r["leaf"]]
+        c["flip"] = [draw(st.sampled_from(leaves)), draw(st.integers(0, 5)), draw(st.sampled_from(leaves)), draw(st.integers(0, 5))]
+        # the new process demands keys in another order than the one in which ids were first handed out
+        c["other_roots"] = draw(st.lists(st.sampled_from([r["key"] for r in c["rules"]]), min_size=0, max_size=2))
     return c
 
 
@@ -237,6 +246,48 @@ def run_case(case, ctx, verbose=False):
         elif tam == "foreign":
             ops.append({"op": "dbwrite", "bytes": ""})
             ops.append({"op": "dbexec", "sql": "CREATE TABLE other(x); INSERT INTO other VALUES (1);"})
+        if case.get("same_engine"):
+            # the engine that wrote the file keeps going on the replaced file, then a new process takes over
+            f = case["flip"]
+            ops.append({"op": "set", "key": f[0], "v": f[1]})
+            ops.append({"op": "build", "key": case["top"], "mode": "sync", "choices": []})
+            ops.append({"op": "restart"})
+            ops.append({"op": "set", "key": f[2], "v": f[3]})
+            for k in case.get("other_roots", []):
+                ops.append({"op": "build", "key": k, "mode": "sync", "choices": []})
+            ops.append({"op": "build", "key": case["top"], "mode": "sync", "choices": []})
+            ops.append({"op": "build", "key": case["top"], "mode": "sync", "choices": []})
+            c["ops"] = ops
+            r = run(c, ctx, dump=True)
+            v = bad_exit(r, "version/same-engine")
+            if v:
+                return Outcome(v, classes=classes + ["file-replaced-under-live-engine"])
+            # every dump taken after a build: rows and dependency ids must resolve in key_names
+            dumps = [x[1] for b in r.events["builds"] for x in b["pre"] if isinstance(x, tuple) and x[0] == "dbdump"]
+            dumps += [x[1] for x in r.events["trailing"] if isinstance(x, tuple) and x[0] == "dbdump"]
+            for d in dumps:
+                if d["errors"]:
+                    continue
+                ids = {k["id"] for k in d["keys"]}
+                for row in d["rows"]:
+                    dep_ids = [x.partition(":")[0] for x in row["deps"].split(",")] if row["deps"] != "-" else []
+                    if row["keyid"] not in ids or any(i not in ids for i in dep_ids):
+                        return Outcome("file replaced by another version under a live engine: the recreated database holds "
+                                       "a result row (key id %s, dependency ids %s) that refers to ids missing from "
+                                       "key_names %s" % (row["keyid"], dep_ids, sorted(ids)),
+                                       classes=classes + ["file-replaced-under-live-engine"])
+            # dbexec is not a build: the value oracle sees the history without it
+            c2 = dict(c)
+            c2["ops"] = [o for o in ops if o["op"] != "dbexec"]
+            v, _ = c01.check_values(c2, r.events)
+            if v:
+                return Outcome("file replaced by another version under a live engine, then restart: " + v,
+                               classes=classes + ["file-replaced-under-live-engine"])
+            last = em.summarize_build(r.events["builds"][-1])
+            if last["created"]:
+                return Outcome("file replaced by another version under a live engine: the final null build of the new "
+                               "process re-ran %s" % sorted(last["created"]), classes=classes + ["file-replaced-under-live-engine"])
+            return Outcome(None, nontrivial=True, classes=classes + ["file-replaced-under-live-engine"])
         ops.append({"op": "restart", "client": case["open_client"], "recreate": case["recreate"]})
         ops.append({"op": "build", "key": case["top"], "mode": "sync", "choices": []})
         c["ops"] = ops
